@@ -5,19 +5,19 @@ V = os.path.dirname(os.path.dirname(os.path.abspath(__file__)))
 
 CHECKS = {
  "C01": dict(cat="exploration", tech="runtime differential monitor: generator-owned expectation vs ParseLine and vs the line a handler receives over an in-memory connection",
-   text="Every generated well-formed message (exhaustive product over small component pools + PRNG grammar) is parsed by the real ParseLine and, for a sample, pushed through a live in-memory connection; the result is compared field by field with an expectation derived from the components alone. Held on the messages explored; the grammar is infinite so this is sampling beyond the exhaustive product.",
+   text="Every generated well-formed message (exhaustive product over small component pools + PRNG grammar) is parsed by the real ParseLine and, for a sample, pushed through a live in-memory connection; the result is compared field by field with an expectation derived from the components alone. Held on the messages explored; the grammar is infinite so this is sampling beyond the exhaustive product. Sessions with 20 ms client pings deliver each message in two segments separated by a longer silence (the transport honours read deadlines), and some messages exceed the 4096-byte read buffer.",
    note="Trusted: the generator's reading of 'well-formed' (RFC 2812 2.3.1 + IRCv3 tags as delimited by the property's quantifier); the in-memory net.Conn handed over through cfg.Proxy.", ref="§4 C01"),
- "C02": dict(cat="exploration", tech="crash journal over child processes + marker round trip + rejected-xor-dispatched log oracle; exhaustive short strings, PRNG mutation",
-   text="Stage A runs ParseLine and Text/Target/Public under recover on every string up to a length bound over the special-byte/verb-token alphabet and on PRNG mutations of well-formed lines; stage B feeds hostile probes (every built-in handler verb with odd parameters, raw bytes) through live connections in child processes, tracking on and off, and checks process survival, that a marker sent afterwards is answered, that following numbered lines arrive in order, and that each probe was either logged as rejected or dispatched exactly once. Held on the inputs explored; exhaustive only up to the stated length.",
+ "C02": dict(cat="exploration", tech="crash journal over child processes + marker round trip + rejected-xor-dispatched log oracle; exhaustive short strings, PRNG mutation; go test -fuzz with a fixed execution count",
+   text="Stage A runs ParseLine and Text/Target/Public under recover on every string up to a length bound over the special-byte/verb-token alphabet and on PRNG mutations of well-formed lines; stage B feeds hostile probes (every built-in handler verb with odd parameters, raw bytes) through live connections in child processes, tracking on and off, and checks process survival, that a marker sent afterwards is answered, that following numbered lines arrive in order, and that each probe was either logged as rejected or dispatched exactly once. Held on the inputs explored; exhaustive only up to the stated length. Go's native coverage-guided fuzzer runs the same target for a fixed execution count and records every panic site.",
    note="Trusted: the crash journal's attribution of a dead worker to the case in flight; a handler panic swallowed by cfg.Recover is by the statement not a violation.", ref="§4 C02"),
  "C08": dict(cat="exploration", tech="per-call wire attribution by FIFO separators over an in-memory connection; CRLF/verb predicates on the raw bytes",
-   text="All 28 exported command methods are called with every argument position set to each of 22 hostile strings (CR, LF, CRLF + second command, NUL, 5000 bytes, ...) for 5 SplitLen values (enumerated completely), plus PRNG multi-hostile combinations; the bytes between separators must be CR/LF-free CRLF-terminated lines beginning with the method's verb. Exhaustive for the stated finite grid, sampling beyond it.",
+   text="All 28 exported command methods are called with every argument position set to each of 22 hostile strings (CR, LF, CRLF + second command, NUL, 5000 bytes, ...) for 5 SplitLen values (enumerated completely), plus PRNG multi-hostile combinations; the bytes between separators must be CR/LF-free CRLF-terminated lines beginning with the method's verb. Exhaustive for the stated finite grid, sampling beyond it. A concurrent mode (2..8 goroutines, 6000-byte arguments, server PINGs, bursty server) requires the wire to hold exactly the expected whole lines.",
    note="Trusted: the in-memory net.Conn records exactly the bytes passed to Write; single issuing goroutine so separators attribute bytes to calls.", ref="§4 C08"),
  "C09": dict(cat="exploration", tech="conservation + per-sender order oracle over the wire transcript under concurrent senders, scripted slow/bursty server, race detector, GOMAXPROCS sweep",
-   text="1..32 concurrent senders (user goroutines, parallel foreground and background handler invocations) issue uniquely numbered lines while the server end reads fast, per token or in bursts; the transcript must equal the issued multiset byte for byte with every sender's counters increasing. Held on the interleavings produced (evidence counts runs with interleaving and a full queue); schedules are sampled, not enumerated.",
+   text="1..32 concurrent senders (user goroutines, parallel foreground and background handler invocations) issue uniquely numbered lines while the server end reads fast, per token or in bursts; the transcript must equal the issued multiset byte for byte with every sender's counters increasing. Held on the interleavings produced (evidence counts runs with interleaving and a full queue); schedules are sampled, not enumerated. Server PINGs are answered concurrently by the built-in handler (one more sender) and some lines exceed the 4096-byte write buffer.",
    note="Trusted: unique (sender,counter) ids make the history unambiguous; the harness keeps the connection up.", ref="§4 C09"),
  "C11": dict(cat="exploration", tech="losslessness/bound predicates over the wire transcript; exhaustive small-alphabet texts + PRNG text classes",
-   text="Privmsg/Privmsgln/Privmsgf/Notice/Ctcp/CtcpReply/Action over 10 SplitLen values; every text over {a,space,.} of the stated lengths at SplitLen 13 exhaustively and PRNG texts up to 6000 bytes with separators placed around the cut point; each piece <= SplitLen, '...' on all but the last, no empty piece, exact reassembly, same target, one piece when it fits. Exhaustive for the small alphabet and lengths, sampling beyond.",
+   text="Privmsg/Privmsgln/Privmsgf/Notice/Ctcp/CtcpReply/Action over 10 SplitLen values; every text over {a,space,.} of the stated lengths at SplitLen 13 exhaustively and PRNG texts up to 6000 bytes with separators placed around the cut point; each piece <= SplitLen, '...' on all but the last, no empty piece, exact reassembly, same target, one piece when it fits. Exhaustive for the small alphabet and lengths, sampling beyond. A concurrent mode sends split-worthy texts from 2..8 goroutines to targets of their own under back-pressure.",
    note="Trusted: consecutive calls use different targets so wire lines are attributed to calls by prefix.", ref="§4 C11"),
  "C12": dict(cat="exploration", tech="reference-model differential monitor on the real tracker: BFS to closure over a small name universe + long PRNG operation sequences, full query sweep after every step",
    text="The real tracker is driven to every one of the reachable model states of the relational-skeleton universe (closure completed: exhaustive there), every interface call with every argument combination is applied from each, and return values plus a full query sweep are compared with an executable relational model; long PRNG sequences over a larger universe with all attributes add the mode/attribute behaviour. Exhaustive for the small universe, sampling beyond.",
@@ -25,8 +25,8 @@ CHECKS = {
  "C14": dict(cat="exploration", tech="mutate-and-resweep aliasing monitor; Go race detector attributed to goirc/state; porcupine linearizability check of timed concurrent histories against the C12 model",
    text="Every returned value is scribbled over and the tracker re-swept against the model; earlier values are compared with their deep copies after later operations; 3..8 goroutines hammer one tracker under -race; many short timed histories are checked for linearizability with porcupine. Held on the histories and interleavings observed (evidence reports overlapping operation pairs).",
    note="Trusted: porcupine v1.3.0; the C12 model as sequential specification; ticks from one atomic counter taken before the call and after the return.", ref="§4 C14"),
- "C03": dict(cat="exploration", tech="offline trace checker over an ENTER/EXIT event log (ordering, non-overlap, CONNECTED/DISCONNECTED placement) under segmentation, handler-delay injection, GOMAXPROCS sweep and the race detector",
-   text="Numbered lines are sent through live in-memory connections cut into hostile segmentations (per byte, inside CRLF, lines longer than the read buffer) to verbs with several foreground and background handlers whose durations are drawn to provoke overlap; the event log must show one line's foreground handlers open at a time, strictly increasing dispatch, every handler once, CONNECTED after the welcome is applied and before later lines, DISCONNECTED after every foreground exit. Held on the schedules observed; evidence counts sessions where same-line overlap was seen (log can see overlap) and lines crossed segments.",
+ "C03": dict(cat="exploration", tech="offline trace checker over an ENTER/EXIT event log (ordering, non-overlap, CONNECTED/DISCONNECTED placement) under segmentation, handler-delay injection, GOMAXPROCS sweep and the race detector; virtual-time (synctest) slow-handler sessions",
+   text="Numbered lines are sent through live in-memory connections cut into hostile segmentations (per byte, inside CRLF, lines longer than the read buffer) to verbs with several foreground and background handlers whose durations are drawn to provoke overlap; the event log must show one line's foreground handlers open at a time, strictly increasing dispatch, every handler once, CONNECTED after the welcome is applied and before later lines, DISCONNECTED after every foreground exit. Held on the schedules observed; evidence counts sessions where same-line overlap was seen (log can see overlap) and lines crossed segments. Sessions mix in PING/PRIVMSG/NOTICE/PONG/MODE lines, handlers check that lines arrive whole, the library's own 'nick changed' warning is used as a delay-injection point, and a virtual-time batch runs handlers that take up to an hour.",
    note="Trusted: the event log's tick is taken inside the append critical section, so log order is consistent with real time; schedules are sampled.", ref="§4 C03"),
  "C15": dict(cat="exploration", tech="scribble-and-barrier monitor inside handlers + storage-identity check + race detector attributed to the handlers' writes",
    text="Every handler invocation compares its line with the expected parse, scribbles over all of it, meets the other invocations of the event at a barrier and checks that only its own marks are present; backing arrays and tag maps must be pairwise distinct; the race detector watches the concurrent writes. Held on the events and interleavings produced.",
@@ -35,10 +35,10 @@ CHECKS = {
    text="User foreground/background and built-in handlers are made to panic with five value kinds at PRNG positions under the default and a custom recovery, next to 0..8 background handlers that never return; at markers every well-behaved handler's count must equal the number of events, the recovery function must have run once per panic with that value and line (default: an error record), and later markers must be reached. Held on the sessions explored.",
    note="Trusted: counters are atomic; a marker not reached is a violation only with a goroutine-census dead-state proof.", ref="§4 C16"),
  "C06": dict(cat="fault_enumeration", tech="fault enumeration on an in-memory transport (cause pairs fired from one barrier) with lifecycle counters, Connected() samples inside handlers and a goroutine-census quiescence oracle; crash journal; race detector",
-   text="Every single end cause and every unordered pair of causes (Close from 1/3/8 goroutines, EOF, read error, write error, context cancel) is fired against connections in seven traffic states and five configurations, plus second-Connect-while-connected, failing connects and Close on an unconnected client; REGISTER/DISCONNECTED counts, Connected() samples taken inside the handlers and return values are judged once the goroutine census shows no library goroutine. The cause/traffic grid is enumerated completely; the schedules inside each scenario are sampled (GOMAXPROCS 1,2,4,16, repetitions).",
+   text="Every single end cause and every unordered pair of causes (Close from 1/3/8 goroutines, EOF, read error, write error, context cancel) is fired against connections in seven traffic states and five configurations, plus second-Connect-while-connected, failing connects and Close on an unconnected client; REGISTER/DISCONNECTED counts, Connected() samples taken inside the handlers and return values are judged once the goroutine census shows no library goroutine. The cause/traffic grid is enumerated completely; the schedules inside each scenario are sampled (GOMAXPROCS 1,2,4,16, repetitions). A teardown that is proven unable to ever deliver DISCONNECTED is reported here as zero-instead-of-one.",
    note="Trusted: the in-memory net.Conn's fault injection reflects what a socket does (a peer that is gone also fails writes); a teardown that never completes is reported by C07, here it is inconclusive.", ref="§4 C06"),
  "C07": dict(cat="fault_enumeration", tech="goroutine-census wait-for (dead-state) oracle for completion, leak census after DISCONNECTED, wire transcript and tracker/Config().Me checks of every next connection; curated + PRNG fault scenarios; race detector",
-   text="Teardown is driven with inbound backlogs up to 300 lines, outbound backlogs up to 200 lines from handlers or user goroutines against reading/non-reading/bursty servers, handlers idle, gated or blocked in a send, all causes and pairs, 1..5 reconnect cycles from inside the DISCONNECTED handler or another goroutine, tracking on/off. 'Bounded time' is restated as reaching completion without further input; a stuck teardown is a violation only with a proof (two identical all-blocked censuses, no library timer pending). Held on the scenarios and schedules explored.",
+   text="Teardown is driven with inbound backlogs up to 300 lines, outbound backlogs up to 200 lines from handlers or user goroutines against reading/non-reading/bursty servers, handlers idle, gated or blocked in a send, all causes and pairs, 1..5 reconnect cycles from inside the DISCONNECTED handler or another goroutine, tracking on/off. 'Bounded time' is restated as reaching completion without further input; a stuck teardown is a violation only with a proof (two identical all-blocked censuses, no library timer pending). Held on the scenarios and schedules explored. Scenarios with flood protection on tear down while the sender sleeps inside write; every next connection's transcript and handler counters are checked for lines carried over from the previous one.",
    note="Trusted: the dead-state argument (in-memory transport, no external input, harness goroutines never park on timers); flood control off in these scenarios.", ref="§3.5, §4 C07"),
  "C10": dict(cat="exploration", tech="online reference-model monitor (Hybrid penalty recurrence in interval arithmetic) over write timestamps in virtual time (testing/synctest bubble, go1.26.8, race detector)",
    text="PRNG sequences of line lengths (boundary values favoured) and idle gaps (0 .. 10 min) from a fresh client, Flood toggled while the sender is idle; every write timestamp must fall where the recurrence allows (held for its own charge exactly when the penalty exceeds 10 s, never delayed with Flood set), and the stated window bound is re-checked on every run of consecutive lines. The virtual clock removes scheduling jitter, so the inequality becomes an equality against the model. Held on the sequences explored.",
@@ -47,19 +47,19 @@ CHECKS = {
    text="All scripts over {collisions before the welcome, welcome same/different, client change confirmed / refused once / refused twice, forced change, other users' changes} up to the stated length are played for three tracking modes and four generators (incl. identity), longer ones by PRNG; Me().Nick must equal the server's nick at every marker (also while a refused change is pending), nothing may be nil, every 433 must be answered with generator(refused). Exhaustive for short scripts, sampling beyond.",
    note="Trusted: the reactive server answers every NICK the client really sends, so sessions are protocol-conformant by construction; Config().Me is read before anything calls Me().", ref="§4 C17"),
  "C18": dict(cat="exploration", tech="dial-address and wire-transcript oracles over the configuration product; PONG token oracle under segmentation; client-ping instants in virtual time (synctest)",
-   text="The address handed to the registered proxy dialer is checked for 12 server spellings x SSL x dialer kinds; the first wire lines for the nick/ident/name/password/negotiation/tracking product over three successive connects of the same client; PONG tokens for a hostile token pool interleaved with other traffic; client PING instants for seven PingFreq values over virtual spans up to an hour. The configuration grids are enumerated completely; token streams are sampled.",
+   text="The address handed to the registered proxy dialer is checked for 12 server spellings x SSL x dialer kinds; the first wire lines for the nick/ident/name/password/negotiation/tracking product over three successive connects of the same client; PONG tokens for a hostile token pool interleaved with other traffic; client PING instants for seven PingFreq values over virtual spans up to an hour. The configuration grids are enumerated completely; token streams are sampled. A separate batch completes real TLS handshakes against a server on the in-memory transport and registers through it; PING streams are also sent while the output queue is full.",
    note="Trusted: with SSL the dial is observed and refused (no TLS handshake); synctest clock for the ping half.", ref="§4 C18"),
  "C19": dict(cat="exploration", tech="trace automaton over the CAP/AUTHENTICATE wire transcript driven by a reactive server, plus SupportsCapability/HasCapability at sync markers; exhaustive small universe + PRNG large sets",
    text="One negotiation per fresh client for every combination of wanted list (incl. duplicates), SASL none/PLAIN/EXTERNAL, advertised subset, reply ACK/NAK/ACK-then-minus and SASL outcome over the small capability universe (enumerated completely), plus PRNG sets of 50..300 capabilities forcing split requests; checks requested = wanted-and-advertised, held = latest acknowledgement, CAP END at quiescence in every listed situation, SASL ordering and payloads.",
    note="Trusted: go-sasl's clients as the definition of 'what the mechanism prescribes'; quiescence via a PING/PONG round trip.", ref="§4 C19"),
  "C20": dict(cat="exploration", tech="capturing logging.Logger with a substring oracle over every record and argument, control run with an empty password, over successful and failing sessions",
-   text="PRNG passwords from nine classes (spaces, format verbs, leading colon, 200 bytes, starting with PASS, containing the mask) on clients with/without negotiation, SASL, tracking, over successful, dial-refused, write-error, EOF-during-registration and reconnecting sessions; no record may contain the password and a masked PASS record must exist whenever PASS reached the wire. Held on the sessions explored.",
+   text="PRNG passwords from nine classes (spaces, format verbs, leading colon, 200 bytes, starting with PASS, containing the mask) on clients with/without negotiation, SASL, tracking, over successful, dial-refused, write-error, EOF-during-registration and reconnecting sessions; no record may contain the password and a masked PASS record must exist whenever PASS reached the wire. Held on the sessions explored. Flood-protected sessions reconnect right after a burst so that the PASS line itself is held back and whatever is logged about the hold is examined.",
    note="Trusted: the capturing logger sees every record because logging is package-global; passwords occurring in the control log are skipped as trivial.", ref="§4 C20"),
  "C04": dict(cat="exploration", tech="multiset reference model with snapshot-at-dispatch semantics compared with per-handler invocation counters at sync markers; must/may classification from call/return ticks under concurrent mutation; dead-state proof; race detector on hSet/hNode",
    text="PRNG histories of registrations, removals and events over 4 names x 3 letter-case variants x both sets, with mutations from inside running handlers (self, first/middle/last/only sibling, same/other name and case); every event's invocation multiset must equal the model's snapshot, in-handler changes must leave the current event's siblings alone and apply later; in a concurrent phase 8 goroutines mutate while events flow and only outcomes fixed by the statement (registered/removed before the event's bytes were handed over) are judged. Held on the histories and interleavings explored.",
    note="Trusted: the background sentinel pins the start of background dispatch; ticks from one atomic clock around every call.", ref="§4 C04"),
- "C05": dict(cat="exploration", tech="single-call tracker snapshots taken inside foreground and background handlers compared with the specification state sequence S_n..S_R (reference tracker model); receive-log-timed sampling; burst-reading server; GOMAXPROCS sweep; race detector",
-   text="Tracked sessions in which every line has a unique visible effect on the channel snapshot; foreground handlers sample after the next line has been received and must see exactly S_n, background handlers must see some S_k with n <= k <= R. Held on the sessions and schedules explored; evidence counts the foreground samples that could have refuted 'not ahead'.",
+ "C05": dict(cat="exploration", tech="single-call tracker snapshots taken inside foreground and background handlers compared with the specification state sequence S_n..S_R (reference tracker model); receive-log-timed sampling; burst-reading server; GOMAXPROCS sweep; race detector; virtual-time (synctest) slow-handler sessions",
+   text="Tracked sessions in which every line has a unique visible effect on the channel snapshot; foreground handlers sample after the next line has been received and must see exactly S_n, background handlers must see some S_k with n <= k <= R. Held on the sessions and schedules explored; evidence counts the foreground samples that could have refuted 'not ahead'. A virtual-time batch runs foreground handlers for up to an hour and samples the tracker at entry and exit.",
    note="Trusted: GetChannel is atomic under the tracker's lock; the '<- line' log record bounds what can have been applied.", ref="§4 C05"),
  "C13": dict(cat="exploration", tech="model IRC network simulator (ground truth + client-knowable view) with a reactive server answering the client's own MODE/WHO requests from the wire; tracker compared at sync markers over every name that ever appeared plus the tracker's own listing; invariant monitor under grammar-based arbitrary lines",
    text="Conformant sessions of hundreds of events (joins, parts, kicks, quits, renames, topics, multi-letter mode changes with arguments, NAMES with highest prefix only, WHO and MODE replies) are played against a tracked client and the tracker is compared with what the protocol has revealed; then arbitrary lines over the same small name universe are fed and the three invariants checked. Held on the sessions explored.",
